@@ -484,6 +484,8 @@ class World(object):
             self.stats['notfired'] += 1
         if exc is not None:
             rec['exc'] = codec.enc_exc(exc)
+            if isinstance(exc, MemoryError) and not fired:
+                self.stats.setdefault('memory_errors', []).append(str(step.get('key') or step.get('op') or step.get('kind')))
             rec['status'] = 'faulted' if fired else 'raised'
             if not fired:
                 self.stats['raised_nat'] += 1
@@ -541,6 +543,8 @@ class World(object):
             self.stats['budget'] += 1
         if exc is not None:
             rec['exc'] = codec.enc_exc(exc)
+            if isinstance(exc, MemoryError) and not fired:
+                self.stats.setdefault('memory_errors', []).append(str(step.get('key') or step.get('op') or step.get('kind')))
             rec['status'] = 'faulted' if fired else 'raised'
             if not fired:
                 self.stats['raised_nat'] += 1
